@@ -57,6 +57,12 @@ def gen_C06(rng, tier, ctx):
     sess = gen.gen_C03(rng, 'quick')
     lines += rng.sample(sess, min(len(sess), 2500 if quick else len(sess)))
     lines += [l for l in gen_dispatch.gen_C10(rng, tier) if ' len ' in l]
+    # bits consumed by table-driven reads, for every index of every decoding table (one reader kind
+    # per endianness in the quick tier): the position after the read must be the one the
+    # bit-by-bit reference reaches
+    t5 = gen.gen_C05(rng, tier, {})
+    keep = ('rw=32 rk=buf strict=0 data',) if quick else ('rk=buf strict=0 data', 'rk=bit strict=1 data')
+    lines += [l for l in t5 if any(k in l for k in keep) and 'rb=adapter' not in l]
     return lines
 
 
